@@ -125,6 +125,73 @@ Example c11_early_put_is_caught :
   rev (outs (rq st 1%nat)) = [[66;66]; [98]]%N.
 Proof. vm_compute. repeat split; reflexivity. Qed.
 
+(* the request route in front of serveBulk (harness which = 9): whatever the options are - auth strategy, auth header,
+   secrets, CORS, meta templates, emulate mode - a request that reaches processBulk (POST, the bulk route of the mode,
+   accepted credentials) is treated exactly as serve_bulk treats its reads ... *)
+Theorem c11_http_route_options_do_not_matter :
+  forall (c : rcfg) (q : rreq), ingests c q = true -> fst (route c q) = serve_bulk (q_reads q).
+Proof. exact route_ingests. Qed.
+Print Assumptions c11_http_route_options_do_not_matter.
+
+(* ... so under every configuration a 200 to such a request comes after every line of its body was handed over ... *)
+Theorem c11_http_route_ok_after_all_in :
+  forall (c : rcfg) (q : rreq) evs st cl,
+    route c q = (evs, st, cl) -> ingests c q = true -> st = 200 ->
+    no_err (q_reads q) = true /\ evs = split_body (concat (chunks_of (q_reads q))).
+Proof. exact route_200_after_all_in. Qed.
+Print Assumptions c11_http_route_ok_after_all_in.
+
+(* ... no other request (OPTIONS, a non-bulk path of the elasticsearch mode, another method) hands over anything ... *)
+Theorem c11_http_route_nothing_else_is_ingested :
+  forall (c : rcfg) (q : rreq), ingests c q = false -> fst (fst (route c q)) = [].
+Proof. exact route_not_ingests. Qed.
+Print Assumptions c11_http_route_nothing_else_is_ingested.
+
+(* ... and a request that does not present a configured secret (specification [authorised], independent of the
+   model of auth / authBasic / authBearer) hands over nothing and is not answered 200 (but for the CORS preflight) *)
+Theorem c11_http_route_unauthorised_hands_over_nothing :
+  forall (c : rcfg) (q : rreq), authorised c q = false ->
+    fst (fst (route c q)) = [] /\ (q_method q <> 2 -> snd (fst (route c q)) <> 200).
+Proof. exact route_unauthorised. Qed.
+Print Assumptions c11_http_route_unauthorised_hands_over_nothing.
+
+(* what a verdict Agree / Differ of the routed histories means for the real plugin *)
+Theorem c11_http_route_verdict_sound :
+  forall case obs,
+    (c11_route_run case obs = Agree \/ exists m, c11_route_run case obs = Differ m) ->
+    exists cfg c reqs outs,
+      case = SL [cfg; SL reqs] /\ cfg_of_sx cfg = Some c /\ obs = SL outs /\
+      Forall2 (fun r o =>
+        exists q reads rds evs st x y z,
+          req_of_sx r = Some (q, reads) /\ as_list rd_of_sx reads = Some rds /\ q_reads q = rds /\
+          o = SL [SL evs; SZ st; x; y; z] /\
+          (ingests c q = true ->
+             (st = 200 -> no_err rds = true /\ evs = map SB (split_body (concat (chunks_of rds)))) /\
+             (st <> 200 -> no_err rds = false)) /\
+          (ingests c q = false ->
+             evs = [] /\ (authorised c q = false -> q_method q <> 2 -> st <> 200))) reqs outs.
+Proof. exact route_verdict_sound. Qed.
+Print Assumptions c11_http_route_verdict_sound.
+
+(* non-vacuity of the route theorems: elasticsearch mode, bearer auth under the header X-K (88 45 75), secret n -> t.
+   POST /_bulk with "Bearer t" in X-K is ingested; the same credentials in another header, a wrong token, GET /_bulk,
+   POST / and OPTIONS are not; basic auth: an unknown user with an empty password makes the handler panic (-1) *)
+Example c11_route_nonvacuous :
+  let c := mkCfg 1 2 [88;45;75]%N [([110]%N, [116]%N)] [] true in
+  let ip := mkIp [] false in
+  let rq := fun m path hsel cr => mkReq m path hsel cr [] ip ip ip ip [] false [Chunk [97;10;98]%N] in
+  ingests c (rq 0 P_BULK [88;45;75]%N (CBearer [116]%N)) = true /\
+  route c (rq 0 P_BULK [88;45;75]%N (CBearer [116]%N)) = ([[97]; [98]]%N, 200, 1) /\
+  route c (rq 0 P_BULK [65]%N (CBearer [116]%N)) = ([], 401, 0) /\
+  route c (rq 0 P_BULK [88;45;75]%N (CRaw [66;101;97;114;101;114;32;117]%N)) = ([], 401, 0) /\
+  route c (rq 1 P_BULK [88;45;75]%N (CBearer [116]%N)) = ([], 405, 0) /\
+  route c (rq 1 P_ROOT [88;45;75]%N (CBearer [116]%N)) = ([], 200, 2) /\
+  route c (rq 0 P_ROOT [88;45;75]%N (CBearer [116]%N)) = ([], 200, 0) /\
+  route c (rq 2 P_BULK [] CNone) = ([], 200, 0) /\
+  route (mkCfg 0 1 [65]%N [([110]%N, [116]%N)] [] false) (rq 0 P_ROOT [65]%N (CBasic [120]%N [])) = ([], -1, 0) /\
+  authorised (mkCfg 0 1 [65]%N [([110]%N, [116]%N)] [] false) (rq 0 P_ROOT [65]%N (CBasic [120]%N [])) = false.
+Proof. vm_compute. repeat split; reflexivity. Qed.
+
 (* non-vacuity: a body with CRLF, an empty line, a line split over three reads and no final newline *)
 Example c11_nonvacuous :
   process_bulk [[97;13]; [10;10;98]; []; [99]; [100;10;101]]%N = [[97;13]; []; [98;99;100]; [101]]%N
